@@ -297,6 +297,10 @@ def run_asyncio(case):
                         await settle()
                 elif op == "pause":
                     tr.net_pause()
+                elif op == "take":
+                    tr.net_take(step[1])
+                    if not nested:
+                        await settle()
                 elif op == "resume":
                     tr.net_resume()
                     if not nested:
